@@ -207,6 +207,11 @@ func Scenarios() []*Scenario {
 	add(&Scenario{Name: "recv-tls", Entry: "receiver/starttls-sasl-bind", Neg: "std", Recv: true, WantOK: true, Feats: tsb, TLS: true,
 		Clear: Stream{cliHeader(), reqStartTLS(0)},
 		TLSs:  Stream{cliHeader(), reqAuth(1, "PLAIN", plainOK), cliHeader(), reqBind(2, false)}})
+	add(&Scenario{Name: "init-tls-proceed-open", Entry: "initiator/starttls-sasl-bind", Neg: "std", WantOK: true, Feats: tsb, TLS: true,
+		Clear: Stream{srvHeader("1.0", true), featuresSeg(false, advStartTLS(0, true)),
+			SegOf(S(`<proceed xmlns='`+nsTLS+`'>`, kSel(0, "EProceed")), E(`</proceed>`))},
+		TLSs: Stream{srvHeader("1.0", true), featuresSeg(false, advSASL(1, "PLAIN")), saslSuccess(1),
+			srvHeader("1.0", true), featuresSeg(false, advBind(2)), bindResult(false)}})
 	add(&Scenario{Name: "init-tls-badcert", Entry: "initiator/starttls-sasl-bind", Neg: "std", Feats: tsb, TLS: true, HSBad: true,
 		Clear: Stream{srvHeader("1.0", true), featuresSeg(false, advStartTLS(0, true)), proceed(0)},
 		TLSs:  Stream{srvHeader("1.0", true)}})
